@@ -115,7 +115,7 @@ func NewSpec() *Spec {
 var labelRe = regexp.MustCompile(`^\[([^\]]*)\]\s*`)
 var clauseKeywords = map[string]bool{"func": true, "spec": true, "ghost": true, "axiom": true, "import": true, "requires": true,
 	"ensures": true, "loop": true, "assert@call": true, "prologue": true, "epilogue": true, "modifies": true, "pure": true,
-	"assumed": true, "trusted": true, "maypanic": true, "lemma": true, "nosafety": true, "params": true, "safety": true, "fvtargets": true}
+	"assumed": true, "trusted": true, "maypanic": true, "lemma": true, "ground": true, "nosafety": true, "params": true, "safety": true, "fvtargets": true}
 
 func splitLabels(rest string) ([]string, string) {
 	if m := labelRe.FindStringSubmatch(rest); m != nil {
@@ -339,6 +339,16 @@ func (s *Spec) ParseSpecFile(path, pkgPath string) error {
 			}
 			s.Lemmas = append(s.Lemmas, c)
 			s.LemmaPkg[c] = pkgPath
+		case "ground":
+			// decided by evaluation (ground.go) under its label, available to the solver as an axiom
+			c, err := mkClause("ground", rest)
+			if err != nil {
+				return err
+			}
+			s.Lemmas = append(s.Lemmas, c)
+			s.LemmaPkg[c] = pkgPath
+			s.Axioms = append(s.Axioms, c)
+			s.AxiomPkg[c] = pkgPath
 		default:
 			if cur == nil {
 				return fail("clause %q outside a func block", kw)
